@@ -180,9 +180,29 @@ func (smpl *Simple[Type]) main() {
 	case <-smpl.breaker.IsBreaked():
 	case <-smpl.opts.Ctx.Done():
 	case <-smpl.graceful.IsBreaked():
-		smpl.priority.GracefulStop()
+		smpl.gracefulStop()
 	case err := <-smpl.priority.Err():
 		smpl.err <- err
+	}
+}
+
+// Waits for graceful termination of the priority discipline, but so that this waiting
+// can be interrupted by rough termination (by Stop() method or by context), otherwise,
+// if graceful termination cannot be completed (handlers are busy, input channels
+// are not closed), rough termination would never be completed too.
+func (smpl *Simple[Type]) gracefulStop() {
+	stopped := make(chan struct{})
+
+	go func() {
+		defer close(stopped)
+
+		smpl.priority.GracefulStop()
+	}()
+
+	select {
+	case <-smpl.breaker.IsBreaked():
+	case <-smpl.opts.Ctx.Done():
+	case <-stopped:
 	}
 }
 
